@@ -12,6 +12,8 @@ import (
 	"testing"
 	"time"
 
+	clusterv3 "github.com/envoyproxy/go-control-plane/envoy/config/cluster/v3"
+	listenerv3 "github.com/envoyproxy/go-control-plane/envoy/config/listener/v3"
 	discovery "github.com/envoyproxy/go-control-plane/envoy/service/discovery/v3"
 	"google.golang.org/protobuf/encoding/prototext"
 	"google.golang.org/protobuf/proto"
@@ -53,6 +55,9 @@ type VS struct {
 	Gateway  bool
 	TS       int64
 	Prefix   string
+	TLS      [][]string // tls routes instead of http: one entry per tls match = its sniHosts (in that order)
+	Subnets  [][]string // destinationSubnets per tls match
+	Hosts    []string   // all VS hosts when TLS is used
 }
 type DR struct {
 	Name, Ns string
@@ -119,6 +124,19 @@ func (w World) configs() []config.Config {
 		if v.Gateway {
 			vs.Gateways = []string{"ns2/gw"}
 		}
+		if len(v.TLS) > 0 {
+			vs.Hosts = v.Hosts
+			for i, sni := range v.TLS {
+				m := &networking.TLSMatchAttributes{Port: 443, SniHosts: append([]string(nil), sni...)}
+				if i < len(v.Subnets) {
+					m.DestinationSubnets = append([]string(nil), v.Subnets[i]...)
+				}
+				vs.Tls = append(vs.Tls, &networking.TLSRoute{Match: []*networking.TLSMatchAttributes{m},
+					Route: []*networking.RouteDestination{{Destination: &networking.Destination{Host: v.Hosts[i%len(v.Hosts)], Port: &networking.PortSelector{Number: 443}}}}})
+			}
+			out = append(out, config.Config{Meta: config.Meta{GroupVersionKind: gvk.VirtualService, Name: v.Name, Namespace: v.Ns, CreationTimestamp: ts(v.TS)}, Spec: vs})
+			continue
+		}
 		vs.Http = []*networking.HTTPRoute{{
 			Name:  v.Name,
 			Match: []*networking.HTTPMatchRequest{{Uri: &networking.StringMatch{MatchType: &networking.StringMatch_Prefix{Prefix: v.Prefix}}}},
@@ -136,7 +154,9 @@ func (w World) configs() []config.Config {
 				ConnectionPool: &networking.ConnectionPoolSettings{Tcp: &networking.ConnectionPoolSettings_TCPSettings{MaxConnections: 7}}}
 		}
 		if d.Subsets {
-			dr.Subsets = []*networking.Subset{{Name: "v1", Labels: map[string]string{"version": "v1"}}, {Name: "v2-" + d.Name, Labels: map[string]string{"version": "v2"}}}
+			// declared out of alphabetical order
+			dr.Subsets = []*networking.Subset{{Name: "v2-" + d.Name, Labels: map[string]string{"version": "v2"}}, {Name: "v1", Labels: map[string]string{"version": "v1"}},
+				{Name: "a0", Labels: map[string]string{"version": "v1"}}}
 		}
 		out = append(out, config.Config{Meta: config.Meta{GroupVersionKind: gvk.DestinationRule, Name: d.Name, Namespace: d.Ns, CreationTimestamp: ts(d.TS)}, Spec: dr})
 	}
@@ -227,6 +247,17 @@ func genWorld(r *vlib.Rand, mode string) World {
 			SC{Name: names[1], Ns: "ns1", Sel: map[string]string{"app": "x"}, Hosts: []string{"ns3/*"}, TS: 0},
 			SC{Name: names[2], Ns: "ns1", Hosts: []string{"./*"}, TS: 0},
 			SC{Name: names[3], Ns: "ns1", Hosts: []string{"*/*"}, TS: 0})
+	case "tlsvs":
+		// a TLS ServiceEntry and a VirtualService with several tls matches on one port whose sniHosts /
+		// destinationSubnets are unsorted permutations of each other
+		se := mkSE(50, "ns1", []string{"t1.example.com", "t2.example.com"}, 0)
+		se.Ports = []int{443}
+		se.DNS = true
+		se.Addr = ""
+		w.SEs = append(w.SEs, se)
+		w.VSs = append(w.VSs, VS{Name: "vs-tls", Ns: "ns1", TS: 0, Hosts: []string{"t1.example.com", "t2.example.com"},
+			TLS:     [][]string{{"t2.example.com", "t1.example.com"}, {"t1.example.com", "t2.example.com"}, {"t2.example.com"}},
+			Subnets: [][]string{{"10.9.0.0/16", "10.1.0.0/16"}, {"10.1.0.0/16", "10.9.0.0/16"}, nil}})
 	case "sharedvip":
 		// one ServiceEntry with an address, two hosts, an HTTP port and no VirtualService for them
 		s := mkSE(40, vlib.Pick(r, dNs), []string{"v1.shared.example.com", "v2.shared.example.com"}, 0)
@@ -267,7 +298,7 @@ func genWorld(r *vlib.Rand, mode string) World {
 	}
 	sort.Strings(hl)
 	for i, h := range hl {
-		if h == "dup.example.com" || h == "pb.example.com" || strings.HasSuffix(h, ".shared.example.com") {
+		if h == "dup.example.com" || h == "pb.example.com" || strings.HasSuffix(h, ".shared.example.com") || h == "t1.example.com" || h == "t2.example.com" {
 			continue
 		}
 		for j := 0; j < r.Intn(3); j++ {
@@ -319,21 +350,26 @@ func generateAll(s *xds.FakeDiscoveryServer, p *model.Proxy) gen {
 			g.order[typ] = append(g.order[typ], r.Name)
 		}
 	}
-	clusters, _ := s.ConfigGen.BuildClusters(p, req)
+	// every type through the generators of the discovery server: they share the (enabled) XDS cache, so a second
+	// generation without ClearAll is served from the cache where the generator caches
+	clusters, _, _ := s.Discovery.Generators[v3.ClusterType].Generate(p, &model.WatchedResource{TypeUrl: v3.ClusterType}, req)
 	put(0, clusters)
 	var edsNames []string
-	for _, c := range s.Clusters(p) {
-		if c.GetEdsClusterConfig() != nil {
+	for _, r := range clusters {
+		c := &clusterv3.Cluster{}
+		if err := r.Resource.UnmarshalTo(c); err == nil && c.GetEdsClusterConfig() != nil {
 			edsNames = append(edsNames, c.Name)
 		}
 	}
-	ls := s.Listeners(p)
-	for _, l := range ls {
-		b, _ := proto.MarshalOptions{Deterministic: true}.Marshal(l)
-		g.content = append(g.content, digest{"lds", l.Name, sum64(b)})
-		g.order[1] = append(g.order[1], l.Name)
+	lres, _, _ := s.Discovery.Generators[v3.ListenerType].Generate(p, &model.WatchedResource{TypeUrl: v3.ListenerType}, req)
+	put(1, lres)
+	var ls []*listenerv3.Listener
+	for _, r := range lres {
+		l := &listenerv3.Listener{}
+		if err := r.Resource.UnmarshalTo(l); err == nil {
+			ls = append(ls, l)
+		}
 	}
-	// RDS and EDS through the real generators, with the watched names held in a set as on a real connection
 	routeNames := xdscore.ExtractRoutesFromListeners(ls)
 	wr := &model.WatchedResource{TypeUrl: v3.RouteType, ResourceNames: sets.New(routeNames...)}
 	routes, _, _ := s.Discovery.Generators[v3.RouteType].Generate(p, wr, req)
@@ -348,6 +384,42 @@ func generateAll(s *xds.FakeDiscoveryServer, p *model.Proxy) gen {
 		return g.content[i].Name < g.content[j].Name
 	})
 	return g
+}
+
+// inputDigests hashes every input object generation reads: the Spec of every config in the store and of the
+// VirtualService copies held by the push context.  Generation must not write to them.
+func inputDigests(s *xds.FakeDiscoveryServer) []digest {
+	var out []digest
+	add := func(kind string, c *config.Config) {
+		m, ok := c.Spec.(proto.Message)
+		if !ok {
+			return
+		}
+		// Deterministic only orders map keys: the order of repeated fields (sniHosts, destinationSubnets, ...) is kept
+		b, _ := proto.MarshalOptions{Deterministic: true}.Marshal(m)
+		out = append(out, digest{kind, c.Namespace + "/" + c.Name, sum64(b)})
+	}
+	for _, k := range []config.GroupVersionKind{gvk.ServiceEntry, gvk.VirtualService, gvk.DestinationRule, gvk.Sidecar, gvk.Gateway} {
+		l := s.Store().List(k, "")
+		for i := range l {
+			add("store-"+k.Kind, &l[i])
+		}
+	}
+	ps := s.PushContext()
+	for _, ns := range dNs {
+		for _, gw := range []string{"mesh", "ns2/gw"} {
+			for _, vs := range ps.VirtualServicesForGateway(ns, gw) {
+				add("push-vs-"+ns+"-"+gw, vs)
+			}
+		}
+	}
+	sort.SliceStable(out, func(i, j int) bool {
+		if out[i].Kind != out[j].Kind {
+			return out[i].Kind < out[j].Kind
+		}
+		return out[i].Name < out[j].Name
+	})
+	return out
 }
 
 func digestsTerm(ds []digest) string {
@@ -383,7 +455,7 @@ func proxies(s *xds.FakeDiscoveryServer, w World) []*model.Proxy {
 	return out
 }
 
-const idsPerWorld = 14
+const idsPerWorld = 17
 
 func namesTerm(ns []string) string {
 	return vlib.ListOf(ns, func(n string) string { return vlib.N(sum64([]byte(n))) })
@@ -403,7 +475,7 @@ func sameStrings(a, b []string) bool {
 
 
 func genDirect(t *testing.T, c *vlib.Collector, id *int, r *vlib.Rand, n int) {
-	modes := []string{"clean", "sidecars", "k6", "httpproxy", "pickbest", "sharedvip"}
+	modes := []string{"tlsvs", "sidecars", "k6", "httpproxy", "pickbest", "sharedvip", "clean"}
 	for k := 0; k < n; k++ {
 		rr := r.Sub()
 		mode := modes[k%len(modes)]
@@ -432,13 +504,51 @@ func genDirect(t *testing.T, c *vlib.Collector, id *int, r *vlib.Rand, n int) {
 			s := xds.NewFakeDiscoveryServer(t, xds.FakeOptions{Configs: cfgs})
 			ps := proxies(s, w)
 			refOrder = order(cfgs)
+			before := inputDigests(s)
+			defer func() {
+				// generation must not have written to its inputs (store objects, push context copies)
+				after := inputDigests(s)
+				mid := base + 17
+				tg := []string{"inputs", "inputs-" + mode}
+				sample := map[string]any{"kind": "Direct", "exploration": true, "what": "digests of every input object (store Specs, push context VirtualServices) before and after all generations", "mode": mode, "world": w}
+				if d := firstDiff(before, after); d != "" {
+					sample["difference"] = "input mutated by generation: " + d
+					tg = append(tg, "inputs-mutated")
+				}
+				c.Add(vlib.Case{ID: mid, Tags: tg, Term: vlib.App("Direct", vlib.NI(mid), vlib.NI(2), digestsTerm(before), digestsTerm(after)), Sample: sample})
+			}()
 			for pi, p := range ps {
+				s.Discovery.Cache.ClearAll()
 				a := generateAll(s, p)
 				ref = append(ref, a)
+				// (0) second generation served through the warm cache
+				{
+					wg := generateAll(s, p)
+					wid := base + 4 + pi*8
+					tg := []string{"direct", "direct-warm", "direct-" + mode}
+					sample := map[string]any{"kind": "Direct", "exploration": true, "what": "cold (cache empty) vs warm (second generation, cache filled) on one server", "mode": mode, "proxy": p.ID, "world": w, "resources": len(a.content)}
+					d := firstDiff(a.content, wg.content)
+					if d == "" {
+						for typ := 0; typ < 4 && d == ""; typ++ {
+							if !sameStrings(a.order[typ], wg.order[typ]) {
+								d = fmt.Sprintf("%s response order differs cold vs warm: %v vs %v", typNames[typ], a.order[typ], wg.order[typ])
+							}
+						}
+					}
+					if d != "" {
+						sample["difference"] = d
+						tg = append(tg, "direct-differs")
+						dumpDiff(wid, a, wg)
+					}
+					// content digests followed by the response order of every type
+					ta, tb := digestsTerm(a.content), digestsTerm(wg.content)
+					oa, ob := orderDigests(a), orderDigests(wg)
+					c.Add(vlib.Case{ID: wid, Tags: tg, Term: vlib.App("Direct", vlib.NI(wid), vlib.NI(3), "("+ta+" ++ "+oa+")", "("+tb+" ++ "+ob+")"), Sample: sample})
+				}
 				// (i) repeated generation in one process, caches dropped
 				s.Discovery.Cache.ClearAll()
 				b := generateAll(s, s.SetupProxy(p))
-				cid := base + 1 + pi*7
+				cid := base + 1 + pi*8
 				tg := []string{"direct", "direct-repeat", "direct-" + mode}
 				sample := map[string]any{"kind": "Direct", "exploration": true, "what": "repeated generation on one server", "mode": mode, "proxy": p.ID, "world": w, "resources": len(a.content)}
 				if d := firstDiff(a.content, b.content); d != "" {
@@ -449,7 +559,7 @@ func genDirect(t *testing.T, c *vlib.Collector, id *int, r *vlib.Rand, n int) {
 				c.Add(vlib.Case{ID: cid, Tags: tg, Term: vlib.App("Direct", vlib.NI(cid), vlib.NI(0), digestsTerm(a.content), digestsTerm(b.content)), Sample: sample})
 				// response order per type, several regenerations against the first
 				for typ := 0; typ < 4; typ++ {
-					oid := base + 4 + typ + pi*7
+					oid := base + 5 + typ + pi*8
 					second := b.order[typ]
 					for i := 0; i < 6 && sameStrings(a.order[typ], second); i++ {
 						s.Discovery.Cache.ClearAll()
@@ -480,7 +590,7 @@ func genDirect(t *testing.T, c *vlib.Collector, id *int, r *vlib.Rand, n int) {
 				s2 := xds.NewFakeDiscoveryServer(t, xds.FakeOptions{Configs: pc})
 				for pi, p := range proxies(s2, w) {
 					b := generateAll(s2, p)
-					cid := base + 2 + v + pi*7
+					cid := base + 2 + v + pi*8
 					tg := []string{"direct", "direct-permuted", "direct-" + mode}
 					sample := map[string]any{"kind": "Direct", "exploration": true, "what": "same objects, permuted insertion order, fresh server", "mode": mode, "proxy": p.ID,
 						"world": w, "order_first": refOrder, "order_second": order(pc), "resources": len(b.content)}
@@ -575,4 +685,15 @@ func dumpDiff(cid int, a, b gen) {
 			_ = os.WriteFile(f+"_second.txt", []byte(b.text[k]), 0o644)
 		}
 	}
+}
+
+// orderDigests: the response order of every type as (type, name digest) pairs
+func orderDigests(g gen) string {
+	var ds []string
+	for typ := 0; typ < 4; typ++ {
+		for _, n := range g.order[typ] {
+			ds = append(ds, vlib.Pair(vlib.NI(typ), vlib.N(sum64([]byte(n)))))
+		}
+	}
+	return vlib.List(ds)
 }
